@@ -4,10 +4,12 @@ import (
 	"bytes"
 	"crypto"
 	"crypto/ecdsa"
+	"crypto/elliptic"
 	"crypto/rsa"
 	"encoding/base64"
 	"encoding/binary"
 	"fmt"
+	"math/big"
 	"os"
 	"runtime"
 	"runtime/debug"
@@ -742,6 +744,23 @@ func checkSig0(c sigCase) (err error) {
 		p = append(append(p, 0), s0.Signature[h:]...)
 		variants = append(variants, variant{"ECDSA signature with a zero octet in front of r and of s", p})
 	}
+	const negS = "ECDSA signature (r, s) replaced by (r, n-s)"
+	if c.Alg == ref.AlgECDSAP256 || c.Alg == ref.AlgECDSAP384 {
+		// round 10 (remark of a breaker): (r, n-s) is another valid signature of the same data under the same key.
+		// RFC 6605 has no low-s rule, so no verifier may refuse it (it would refuse other signers' messages); the
+		// alteration is not one the statement can mean - judged by consensus like every other one, and recorded
+		curve := elliptic.P256()
+		if c.Alg == ref.AlgECDSAP384 {
+			curve = elliptic.P384()
+		}
+		if h := len(s0.Signature) / 2; h > 0 && len(s0.Signature)%2 == 0 {
+			ns := new(big.Int).Sub(curve.Params().N, new(big.Int).SetBytes(s0.Signature[h:]))
+			if ns.Sign() > 0 {
+				p := append(append([]byte(nil), s0.Signature[:h]...), ns.FillBytes(make([]byte, h))...)
+				variants = append(variants, variant{negS, p})
+			}
+		}
+	}
 	for _, v := range variants {
 		x := append(append([]byte(nil), out[:sigOff]...), v.sig...)
 		binary.BigEndian.PutUint16(x[last.Fixed+8:], uint16(sigOff-last.RData+len(v.sig)))
@@ -749,6 +768,11 @@ func checkSig0(c sigCase) (err error) {
 			if ok, why := refAccepts(x, signerL, c.Alg, pub, now); !ok {
 				return pbt.Errf("SIG.Verify accepted the message with its %s (%d octets instead of %d); reference: %s", v.name, len(v.sig), len(s0.Signature), why)
 			}
+			if v.name == negS {
+				pbt.Class("ecdsa-(r,n-s)-accepted-by-library-and-reference(another valid signature; not asserted)")
+			}
+		} else if v.name == negS {
+			pbt.Class("ecdsa-(r,n-s)-refused")
 		}
 		pbt.Class("structural-signature-variant")
 	}
